@@ -43,6 +43,14 @@ def cases(tier, seed):
         if ref.kdependent(g3, c['QI']):
             continue
         c['num_procs'] = 1
+        if c['prob'] in ('dahlquist', 'dahlquist_imex', 'dense', 'denseimex') and i % 3 == 0:
+            # deep hierarchies (4-5 levels): the middle levels 2, 3 are visited on the way down and on the way up like level 1
+            deep = int(rng.choice([4, 5]))
+            lowest = 2 if c['qt'] in ('LOBATTO', 'RADAU-LEFT') else 1
+            while len(c['Ms']) < deep:
+                c['Ms'].append(max(lowest, c['Ms'][-1] - int(rng.integers(0, 2))))
+            c['nsweeps'] = [int(rng.choice([1, 1, 2])) for _ in range(deep - 1)] + [1]
+            c['nlev'] = deep
         c['kind'] = 'fixed' if len(cs) % 2 == 0 else 'iter'
         c['predict'] = None
         c['restol'] = -1.0
